@@ -51,6 +51,9 @@ BEAST_ALPHA = {
     "Sm6": B.beast_frame(0x32, TS, 0x40, _with(SHORT, 6, 0x1A)),
     "AC": B.beast_frame(0x31, TS, 0x20, b"\x12\x34"),
     "ST": B.beast_frame(0x34, TS, 0x00, bytes(range(1, 8))),
+    "ACe0": B.beast_frame(0x31, TS, 0x20, b"\x1a\x34"),           # escaped 0x1A as first / last Mode-AC byte
+    "ACe1": B.beast_frame(0x31, TS, 0x20, b"\x12\x1a"),
+    "STe": B.beast_frame(0x34, [0x1A] + TS[1:], 0x1A, b"\x01\x1a\x03\x04\x05\x06\x1a"),
     "Xl": B.beast_frame(0x32, TS, 0x40, LONG[:7]),      # short frame carrying a long-only DF: not admitted
     "Lsig0": B.beast_frame(0x33, TS, 0x00, LONG2),
 }
@@ -377,7 +380,7 @@ def run(ctx):
         seqs = []
         for n in range(1, depth + 1):
             if n == 3 and framer.startswith("beast"):
-                sub = ["L", "Lts5", "Lsig", "Lm0", "Lm13", "Lmm", "S", "Sm6", "AC"]
+                sub = ["L", "Lts5", "Lsig", "Lm13", "Lmm", "S", "Sm6", "AC", "ACe1", "STe"]
                 seqs += list(itertools.product(sub, repeat=3))
             else:
                 seqs += list(itertools.product(sorted(alpha), repeat=n))
